@@ -53,6 +53,7 @@ def sm_ri(m, with_seqs=True):
                                                   m._flags_key_set.has(m._flags_key_map[u].term())))),
     ]
     cl.append(('S8_count', card_is(U, S.len)))
+    cl.append(('S9_cached_message_has_its_uid', forall(lambda u: implies(U.has(u), m._cache[u].uid == u))))
     if with_seqs:
         cl.append(('S5_seqs_are_ranks', forall(lambda u: (Q.has(u) == U.has(u)) &
                                                implies(U.has(u), Q[u] == pos[u] + 1))))
@@ -60,7 +61,7 @@ def sm_ri(m, with_seqs=True):
 
 
 SM_LABELS = ['S1_sorted_increasing', 'S2_sorted_in_uids', 'S3_uids_in_sorted', 'S4_cache_dom', 'S6_flag_keys',
-             'S5_seqs_are_ranks', 'S8_count']
+             'S5_seqs_are_ranks', 'S8_count', 'S9_cached_message_has_its_uid']
 
 
 def sm_clauses(sel, labels=SM_LABELS):
@@ -93,7 +94,7 @@ def _update_loop0():
         added = lambda u: exists(lambda i: (i >= 0) & (i < k) & (s.wrap(msgs[i]).uid == u))
         base = dict(sm_ri(m, with_seqs=False))
         out = [(l, base[l]) for l in ['S1_sorted_increasing', 'S2_sorted_in_uids', 'S3_uids_in_sorted',
-                                      'S4_cache_dom', 'S6_flag_keys', 'S8_count']]
+                                      'S4_cache_dom', 'S6_flag_keys', 'S8_count', 'S9_cached_message_has_its_uid']]
         out += [
             ('uids_grow', forall(lambda u: m._uids.has(u) == (p._uids.has(u) | added(u)))),
             ('seqs_untouched', m._seqs_cache == p._seqs_cache),
@@ -108,7 +109,7 @@ def _update_loop0():
         ]
         return out
     labels = ['S1_sorted_increasing', 'S2_sorted_in_uids', 'S3_uids_in_sorted', 'S4_cache_dom', 'S6_flag_keys', 'S8_count',
-              'uids_grow', 'seqs_untouched', 'pending_untouched', 'prefix_stable', 'nothing_inserted',
+              'S9_cached_message_has_its_uid', 'uids_grow', 'seqs_untouched', 'pending_untouched', 'prefix_stable', 'nothing_inserted',
               'flag_set_sound']
     return Loop(invariant=[(l, (lambda s, l=l: dict(inv(s))[l])) for l in labels])
 
@@ -759,3 +760,108 @@ add_updates_inv = Contract(
     calls={'self._messages._update': sm_update, 'self._messages._remove': sm_remove, 'self._session_flags.remove': sess_remove},
     modifies=['self._messages', 'self._session_flags'], raises_only=(), returns=NoneS())
 CONTRACTS_LINK = [add_updates, frozen_init, fork, add_updates_inv]
+
+
+# ---- SelectedMailbox.silence (C02): what a STORE ... .SILENT suppresses
+#
+# _compare() suppresses the FETCH of a flags key that is in _silenced_flags.  For the suppression to hide only this
+# session's OWN change, every key put there must be "the flags this session has synchronized (its _flags_key_map
+# entry), with the operation applied" -- computed from the backend's live message object instead, the key would also
+# contain a change another session made meanwhile, and that change would never be reported (C02).  Flag sets are
+# opaque here: apply / & / get are uninterpreted functions, so only the DATA FLOW is decided.
+import ast as _ast  # noqa: E402
+
+APPLY = z3.Function('FlagOp.apply', RefS('FlagOp').z3(), FSet.z3(), FSet.z3(), FSet.z3())
+PERM_AND = z3.Function('PermanentFlags.&', FSet.z3(), FSet.z3())
+SESS_AND = z3.Function('SessionFlags.&', FSet.z3(), FSet.z3())
+SESS_GET = z3.Function('SessionFlags.get', z3.IntSort(), FSet.z3())
+LIVE_FLAGS = z3.Function('Message.permanent_flags(live)', Msg.z3(), FSet.z3())
+_FK0 = FK._dt().accessor(0, 0)
+_FK1 = FK._dt().accessor(0, 1)
+
+
+def _sil_binop(ex, op, a, b):
+    if isinstance(op, _ast.BitAnd) and isinstance(b, VRef) and b.sort.name == 'FSet' and isinstance(a, VRec):
+        return FSet.wrap((PERM_AND if a.sort.name == PermS.name else SESS_AND)(b.t))
+    return None
+
+
+def _sil_get_all(ex, frame, e, base=None):
+    """SynchronizedMessages.get_all through its proved contract: every element is (seq, the cached message of a uid
+    of the view)"""
+    ex.eval_args(e, frame)
+    me = ex.entry_names['self']
+    sm = ex.st.store[me.rid]['_messages']
+    uids, cache = ex.st.store[sm.rid]['_uids'], ex.st.store[sm.rid]['_cache']
+    lst = ListS(TupleS(INT, Msg)).fresh('addressed')
+    wit = z3.Function(fresh_name('uid_of'), z3.IntSort(), z3.IntSort())
+    j = z3.Int(fresh_name('j'))
+    acc = TupleS(INT, Msg)._dt().accessor(0, 1)
+    ex.assume(lst.n >= 0)
+    ex.assume(z3.ForAll([j], z3.Implies(z3.And(0 <= j, j < lst.n), z3.And(
+        _b(uids.has(VInt(wit(j)))), acc(lst.arr[j]) == _t(cache.at(VInt(wit(j))))))))
+    return lst
+
+
+def _sil_apply(ex, frame, e, base=None):
+    args, kw = ex.eval_args(e, frame)
+    base = base if base is not None else ex.eval(e.func.value, frame)
+    return FSet.wrap(APPLY(_t(base), _t(args[0]), _t(args[1])))
+
+
+def _sil_sget(ex, frame, e, base=None):
+    args, kw = ex.eval_args(e, frame)
+    return FSet.wrap(SESS_GET(_t(args[0])))
+
+
+def _silenced_keys_come_from_the_synchronized_flags(s):
+    m = s.self._messages
+    new, old = s.self._silenced_flags, s.old.self._silenced_flags
+    k = z3.Const(fresh_name('fk'), FK.z3())
+    km = unview(m._flags_key_map) if hasattr(m._flags_key_map, '_v') else m._flags_key_map
+    synced = _FK1(_t(km.at(VInt(_FK0(k)))))
+    return VBool(z3.ForAll([k], z3.Implies(
+        _b(new.has(FK.wrap(k))),
+        z3.Or(_b(old.has(FK.wrap(k))),
+              z3.And(_b(m._uids.has(VInt(_FK0(k)))),
+                     _FK1(k) == APPLY(_t(s.flag_op), synced, PERM_AND(_t(s.flag_set))))))))
+
+
+from pyvc.engine import unview  # noqa: E402
+
+
+def _silenced_add_hook(st, rec, old, new):
+    """write hook on SelectedMailbox._silenced_flags (active in the silence contract only): the key being added is
+    checked where it is added, quantifier-free"""
+    ex = getattr(st, 'executor', None)
+    if ex is None or ex.c is not silence or old is None:
+        return
+    arr = new.arr if hasattr(new, 'arr') else new.t
+    if not (z3.is_app(arr) and arr.decl().kind() == z3.Z3_OP_STORE and z3.is_true(arr.arg(2))):
+        return
+    k = arr.arg(1)
+    sm = st.store[rec.rid]['_messages']
+    km, uids = st.store[sm.rid]['_flags_key_map'], st.store[sm.rid]['_uids']
+    env = ex.frames[0].env
+    synced = _FK1(_t(km.at(VInt(_FK0(k)))))
+    base = f'{ex.c.name}/silenced_key_added'
+    ex.oblige(f'{base}/for_a_uid_of_the_view', _b(uids.has(VInt(_FK0(k)))))
+    ex.oblige(f'{base}/is_the_synchronized_flags_with_the_operation_applied',
+              _FK1(k) == APPLY(_t(env['flag_op']), synced, PERM_AND(_t(env['flag_set']))))
+
+
+SEL.hooks['_silenced_flags'] = _silenced_add_hook
+
+silence = Contract(
+    'C02', F, 'SelectedMailbox.silence', params=dict(self=SEL, seq_set=SeqSetS, flag_set=FSet, flag_op=RefS('FlagOp')),
+    requires=sm_clauses(lambda s: s.self._messages),
+    ensures=[('silenced_keys_are_the_synchronized_flags_with_the_operation_applied',
+              _silenced_keys_come_from_the_synchronized_flags),
+             ('view_untouched', lambda s: (s.self._messages._uids == s.old.self._messages._uids) &
+              (s.self._messages._flags_key_set == s.old.self._messages._flags_key_set))],
+    loops={0: Loop(invariant=[('silenced_keys_are_the_synchronized_flags_with_the_operation_applied',
+                               _silenced_keys_come_from_the_synchronized_flags)])},
+    calls={'self._messages.get_all': _sil_get_all, 'flag_op.apply': _sil_apply, 'session_flags.get': _sil_sget},
+    modifies=['self._silenced_flags', 'self._silenced_sflags'], raises_only=())
+silence.binop_model = _sil_binop
+silence.attr_models = {('Msg', 'permanent_flags'): lambda ex, frame, ref: FSet.wrap(LIVE_FLAGS(ref.t))}
